@@ -44,16 +44,23 @@ static void observe_entropy(const unsigned char *bytes, uint32_t size)
     }
 }
 static ent_t *find_entropy(const unsigned char *blk, int n) { for (long i = nents - 1; i >= 0; i--) if (!memcmp(ents[i].b, blk, n)) return &ents[i]; return NULL; }
+/* (key, nonce) -> seal, open addressing (streams of > 65536 records per key are part of the workload) */
+static long *sidx; static long sidxcap;
+static uint64_t seal_h(uint64_t keyid, const unsigned char *nonce) { unsigned char b[20]; memcpy(b, &keyid, 8); memcpy(b + 8, nonce, 12); return vf_hash(b, 20); }
+static void sidx_put(long i) { uint64_t h = seal_h(seals[i].keyid, seals[i].nonce) & (uint64_t) (sidxcap - 1); while (sidx[h] >= 0) h = (h + 1) & (uint64_t) (sidxcap - 1); sidx[h] = i; }
 static void aead_seal(cx_t *x, const char *cipher, const unsigned char *nonce, uint64_t dig)
 {
     n_aead_seals++; x->seals++;
-    for (long i = 0; i < nseals; i++) if (seals[i].keyid == x->keyid && !memcmp(seals[i].nonce, nonce, 12)) {
-        if (seals[i].dig != dig) report("nonce-reuse", cipher, "nonce %02x%02x%02x%02x..%02x%02x used twice under one key for different (AAD || plaintext)", nonce[0], nonce[1], nonce[2], nonce[3], nonce[10], nonce[11]);
-        else n_reuse_same++;
-        return;
-    }
+    if ((nseals + 1) * 2 > sidxcap) { sidxcap = sidxcap ? sidxcap * 2 : 8192; free(sidx); sidx = malloc(sidxcap * sizeof *sidx); for (long i = 0; i < sidxcap; i++) sidx[i] = -1; for (long i = 0; i < nseals; i++) sidx_put(i); }
+    for (uint64_t h = seal_h(x->keyid, nonce) & (uint64_t) (sidxcap - 1); sidx[h] >= 0; h = (h + 1) & (uint64_t) (sidxcap - 1)) { long i = sidx[h];
+        if (seals[i].keyid == x->keyid && !memcmp(seals[i].nonce, nonce, 12)) {
+            if (seals[i].dig != dig) report("nonce-reuse", cipher, "nonce %02x%02x%02x%02x..%02x%02x used twice under one key for different (AAD || plaintext)", nonce[0], nonce[1], nonce[2], nonce[3], nonce[10], nonce[11]);
+            else n_reuse_same++;
+            return;
+        } }
     if (nseals == capseals) { capseals = capseals ? capseals * 2 : 4096; seals = realloc(seals, capseals * sizeof *seals); }
     seals[nseals].keyid = x->keyid; memcpy(seals[nseals].nonce, nonce, 12); seals[nseals].dig = dig; nseals++;
+    sidx_put(nseals - 1);
 }
 
 /* ------------------------------------------------------------------ wrappers ---- */
@@ -242,6 +249,41 @@ static void run_scn(void *a_)
     vf_distinct("%d|%04x|%d|%d|%d|%d", s->ver, s->suite, s->resumed, s->ticket, s->ca, s->early);
 }
 
+/* ------------------------------------------------------------------ very long streams ----
+ * More than 65536 records per direction on one connection: the record sequence number (TLS 1.2 explicit nonce / AAD, TLS 1.3
+ * per-record nonce, the CBC MAC input) carries out of its low 16 bits under one key.  The receiver is the library too, so a
+ * sender/receiver pair that agree on a wrong sequence are only told apart by the monitor (nonce per key, sequence delta). */
+typedef struct { int ver; uint16_t suite; int nrec; } lscn_t;
+static void wl_reset(wl_t *w);
+static void run_long(void *a_)
+{
+    const lscn_t *s = a_; wl_t W; memset(&W, 0, sizeof W); sslSessionId_t *sid; matrixSslNewSessionId(&sid, NULL);
+    const mx_suite_t *su = mx_suite_by_id(s->suite); cur_ver = s->ver; cur_suite = su->name;
+    mx_entropy_observer = NULL;   /* IV freshness is the business of the ordinary scenarios; this one keeps the PRNG log small */
+    mx_cfg cfg = { .ver = s->ver, .suite = s->suite };
+    vf_stat("cases", 1);
+    if (mx_conn_open(&W.k, &cfg, sid) != 0) { vf_incon("open failed"); return; }
+    wl_reset(&W); cbc_in_record_layer = 0; nwires[0] = nwires[1] = 0;
+    wl_step_all(&W, 300, "handshake");
+    if (!mx_conn_established(&W.k)) { vf_incon("long-stream scenario %s %s did not establish [%s]", mx_vername[s->ver], su->name, cur_desc); mx_conn_close(&W.k); return; }
+    size_t g0 = W.k.s.gotlen, g1 = W.k.c.gotlen;
+    for (int i = 0; i < s->nrec; i++) {
+        wl_send(&W, &W.k.c, 1, 5000 + i); wl_send(&W, &W.k.s, 1, 6000 + i);
+        if (i % 64 == 63) {
+            wl_step_all(&W, 400, "long-stream");
+            /* drop what has been delivered: the queues and the wire log are not needed here */
+            for (int d = 0; d < 2; d++) if (W.k.qoff[d] == W.k.qlen[d]) { W.k.qoff[d] = W.k.qlen[d] = 0; W.k.wirelen[d] = 0; }
+        }
+    }
+    wl_step_all(&W, 400, "long-stream");
+    if (W.k.c.dead || W.k.s.dead) report("long-stream-broken", "record-layer", "the connection died during a stream of %d one-octet records per direction (client dead=%d, server dead=%d)", s->nrec, W.k.c.dead, W.k.s.dead);
+    else if (W.k.s.gotlen - g0 != (size_t) s->nrec || W.k.c.gotlen - g1 != (size_t) s->nrec) report("long-stream-broken", "record-layer", "%d one-octet records sent per direction, %zu / %zu octets delivered", s->nrec, W.k.s.gotlen - g0, W.k.c.gotlen - g1);
+    vf_stat("very_long_streams", 1); vf_stat("very_long_stream_records", 2L * s->nrec);
+    mx_conn_close(&W.k); matrixSslDeleteSessionId(sid);
+    vf_stat("aead_seals", n_aead_seals); vf_stat("aead_keys", n_keys);
+    vf_distinct("long|%d|%04x", s->ver, s->suite);
+}
+
 /* ------------------------------------------------------------------ TLS 1.3 0-RTT corner scenarios ----
  * A client that has written early data keeps the client_early_traffic key as its write key until its second flight.
  * Whatever it protects in between (a closure alert of the application, an alert answering bad input) and whatever
@@ -398,6 +440,21 @@ int main(int argc, char **argv)
         if (vf_case && strncmp(vf_case, cur_desc, strchr(cur_desc, '(') - cur_desc)) continue;
         if (i % 9 == 0) vf_sample("%s", cur_desc);
         vf_fork_case(run_zrtt, &zl[i], "c17", cur_desc, 120);
+    }
+    /* very long streams: every AEAD suite x TLS version that carries it (quick: three of them), one CBC suite per version */
+    static lscn_t ll[64]; int nl = 0;
+    for (int v = 0; v < MX_NVER; v++) { if (MX_IS_DTLS(v)) continue; int cbc = 0;
+        for (int i = 0; i < MX_NSUITES; i++) { const mx_suite_t *su = &mx_suites[i]; if (!mx_suite_ok_for(su, v) || su->auth == MX_AUTH_ECDSA || nl == 64) continue;
+            if (su->aead) ll[nl++] = (lscn_t) { v, su->id, 66000 }; else if (!cbc++) ll[nl++] = (lscn_t) { v, su->id, 66000 }; } }
+    for (int i = 0; i < nl; i++) {
+        if (!vf_mine(idx++)) continue;
+        const mx_suite_t *su = mx_suite_by_id(ll[i].suite);
+        if (!vf_thorough && !(su->aead && (i % 3) == 0)) continue;
+        mx_entropy_seed(vf_seed * 311 + i + 99);
+        snprintf(cur_desc, sizeof cur_desc, "long=%d rep=0 (%s %04x %d records per direction)", i, mx_vername[ll[i].ver], ll[i].suite, ll[i].nrec);
+        if (vf_case && strncmp(vf_case, cur_desc, strchr(cur_desc, '(') - cur_desc)) continue;
+        vf_sample("%s", cur_desc);
+        vf_fork_case(run_long, &ll[i], "c17", cur_desc, 600);
     }
     mx_keys_free(); matrixSslClose(); vf_flush();
     return 0;
